@@ -433,10 +433,22 @@ impl Display for ChemicalComposition<'_> {
     }
 }
 
-#[derive(Debug, Clone, PartialEq)]
+#[derive(Debug, Clone)]
 pub enum ChemicalCompositionRef<'inner, 'lifespan: 'inner> {
     Vec(&'inner ChemicalCompositionVec<'lifespan>),
     Map(&'inner ChemicalCompositionMap<'lifespan>),
+}
+
+impl PartialEq for ChemicalCompositionRef<'_, '_> {
+    #[inline]
+    fn eq(&self, other: &Self) -> bool {
+        if self.len() != other.len() {
+            false
+        } else {
+            self.iter()
+                .all(|(k, v)| other.iter().any(|(k2, v2)| k2 == k && v2 == v))
+        }
+    }
 }
 
 impl<'inner, 'lifespan: 'inner> ChemicalCompositionRef<'inner, 'lifespan> {
